@@ -58,13 +58,31 @@ func resolveDir(cwd, p string) string {
 	if p == "" {
 		return ""
 	}
-	if !filepath.IsAbs(p) {
-		p = filepath.Join(cwd, p)
+	if filepath.IsAbs(p) {
+		if r, err := filepath.EvalSymlinks(p); err == nil {
+			return r
+		}
+		return filepath.Clean(p)
 	}
-	if r, err := filepath.EvalSymlinks(p); err == nil {
-		return r
+	// relative to the PHYSICAL working directory, ".." resolved the way the kernel (and git) does it:
+	// component by component, not lexically (the logged cwd may be a logical path through a symbolic link)
+	cur := cwd
+	if r, err := filepath.EvalSymlinks(cwd); err == nil {
+		cur = r
 	}
-	return filepath.Clean(p)
+	for _, comp := range strings.Split(filepath.ToSlash(p), "/") {
+		switch comp {
+		case "", ".":
+		case "..":
+			cur = filepath.Dir(cur)
+		default:
+			cur = filepath.Join(cur, comp)
+			if r, err := filepath.EvalSymlinks(cur); err == nil {
+				cur = r
+			}
+		}
+	}
+	return cur
 }
 
 func protoEvents(log []gitLogRec) []map[string]interface{} {
@@ -81,7 +99,7 @@ func protoEvents(log []gitLogRec) []map[string]interface{} {
 				p := strings.TrimSpace(r.OutText)
 				if p != "" {
 					if !filepath.IsAbs(p) {
-						p = filepath.Join(r.Cwd, p)
+						p = filepath.Join(resolveDir(r.Cwd, filepath.Dir(p)), filepath.Base(p))
 					}
 					if _, err := os.Lstat(p); err == nil {
 						o = "shallowfile"
